@@ -141,69 +141,178 @@ NAMES = ['1.7.2', '13w47a', '1.8', '1.9-pre1', '1.10.2', '20w45a', '1.16.4',
 RELEASE = re.compile(r'\d+(\.\d+)+$')
 
 
+def _A(*xs):
+    out = []
+    for x in xs:
+        if x is True:
+            continue
+        if x is False:
+            return False
+        out.append(x)
+    if not out:
+        return True
+    return z3.And(*out) if len(out) > 1 else out[0]
+
+
+def _O(*xs):
+    out = []
+    for x in xs:
+        if x is False:
+            continue
+        if x is True:
+            return True
+        out.append(x)
+    if not out:
+        return False
+    return z3.Or(*out) if len(out) > 1 else out[0]
+
+
+def _N(x):
+    return (not x) if isinstance(x, bool) else z3.Not(x)
+
+
+def _Eq(a, b):
+    """int-likes: python bool when both concrete, else z3 Bool"""
+    if isinstance(a, int) and isinstance(b, int):
+        return a == b
+    r = z3.simplify(E(a) == E(b))
+    return True if z3.is_true(r) else False if z3.is_false(r) else r
+
+
+def _B(x):
+    if isinstance(x, bool):
+        return x
+    r = z3.simplify(EB(x))
+    return True if z3.is_true(r) else False if z3.is_false(r) else r
+
+
+def _Z(x):
+    return z3.BoolVal(x) if isinstance(x, bool) else x
+
+
+def _count(flags, W):
+    """number of true flags as (concrete part, symbolic term or None)"""
+    conc = sum(1 for f in flags if f is True)
+    syms = [z3.If(f, z3.BitVecVal(1, W), z3.BitVecVal(0, W))
+            for f in flags if not isinstance(f, bool)]
+    return conc, syms
+
+
+def _count_is(flags, j, W):
+    conc, syms = _count(flags, W)
+    if not syms:
+        return conc == j
+    return z3.Sum(syms) == (j - conc) if len(syms) > 1 \
+        else syms[0] == (j - conc)
+
+
 def _projection_ok(records, tables):
-    """records: [(id, protocol term/int, supported term/bool)];
-    tables: the seven derived tables after initglobals.  z3 Bool."""
+    """records: [(id, protocol int/term, supported bool/term)];
+    tables: the seven derived tables after initglobals.  z3 Bool.
+    Concrete sub-terms are folded in Python so that the 369 real records
+    cost nothing."""
     (known_mv, sup_mv, rel_mv, known_pv, sup_pv, rel_pv, indices) = tables
     W = Ctx.cur.W
 
+    def prefix_counts(flags):
+        """for each i: (number of concretely-true flags before i, list of
+        symbolic flags before i)"""
+        out, conc, syms = [], 0, []
+        for f in flags:
+            out.append((conc, list(syms)))
+            if f is True:
+                conc += 1
+            elif f is not False:
+                syms.append(f)
+        out.append((conc, list(syms)))
+        return out
+
+    def cnt_is(pc, j):
+        conc, syms = pc
+        if not syms:
+            return conc == j
+        if j < conc or j > conc + len(syms):
+            return False
+        terms = [z3.If(f, z3.BitVecVal(1, W), z3.BitVecVal(0, W))
+                 for f in syms]
+        tot = z3.Sum(terms) if len(terms) > 1 else terms[0]
+        return tot == (j - conc)
+
     def dedupe_ok(seq, out):
-        """out (concrete-length list of terms) == order-preserving dedupe of
-        seq = [(present: z3 Bool, value term)]"""
-        conds = []
+        """out == order-preserving dedupe of the present values of seq"""
         firsts = []
+        sym_idx = [k for k, (p_, v_) in enumerate(seq)
+                   if not isinstance(v_, int) or not isinstance(p_, bool)]
+        seen_conc = {}
         for i, (pres, v) in enumerate(seq):
-            firsts.append(z3.And(pres, *[z3.Or(z3.Not(seq[k][0]),
-                                               seq[k][1] != v)
-                                         for k in range(i)]))
-        n = z3.Sum([z3.If(f, z3.BitVecVal(1, W), z3.BitVecVal(0, W))
-                    for f in firsts]) if firsts else z3.BitVecVal(0, W)
-        conds.append(n == len(out))
+            if isinstance(v, int) and isinstance(pres, bool):
+                # only earlier symbolic entries and an earlier concrete
+                # duplicate matter
+                dup = v in seen_conc
+                f = _A(pres, not dup,
+                       *[_O(_N(seq[k][0]), _N(_Eq(seq[k][1], v)))
+                         for k in sym_idx if k < i])
+                if pres and not dup:
+                    seen_conc[v] = i
+            else:
+                f = _A(pres, *[_O(_N(seq[k][0]), _N(_Eq(seq[k][1], v)))
+                               for k in range(i)])
+            firsts.append(f)
+        pcs = prefix_counts(firsts)
+        conds = [cnt_is(pcs[len(seq)], len(out))]
         for i, (pres, v) in enumerate(seq):
-            rank = z3.Sum([z3.If(firsts[k], z3.BitVecVal(1, W),
-                                 z3.BitVecVal(0, W)) for k in range(i)]) \
-                if i else z3.BitVecVal(0, W)
-            conds.append(z3.Implies(firsts[i], z3.Or(*[
-                z3.And(rank == j, E(out[j]) == v)
-                for j in range(len(out))])))
-        return z3.And(*conds)
+            if firsts[i] is False:
+                continue
+            conc, syms = pcs[i]
+            alts = [_A(cnt_is(pcs[i], j), _Eq(out[j], v))
+                    for j in range(conc, min(len(out), conc + len(syms) + 1))]
+            conds.append(_O(_N(firsts[i]), _O(*alts)))
+        return _A(*conds)
 
     def odict_ok(seq, od):
-        """od (OrderedDict id->protocol) == the present entries of seq in
-        order; ids are concrete, presence may be symbolic"""
         items = list(od.items())
-        conds = []
-        n = z3.Sum([z3.If(p, z3.BitVecVal(1, W), z3.BitVecVal(0, W))
-                    for p, _, _ in seq]) if seq else z3.BitVecVal(0, W)
-        conds.append(n == len(items))
+        pres_l = [p for p, _, _ in seq]
+        pcs = prefix_counts(pres_l)
+        conds = [cnt_is(pcs[len(seq)], len(items))]
         for i, (pres, vid, v) in enumerate(seq):
-            rank = z3.Sum([z3.If(seq[k][0], z3.BitVecVal(1, W),
-                                 z3.BitVecVal(0, W)) for k in range(i)]) \
-                if i else z3.BitVecVal(0, W)
-            conds.append(z3.Implies(pres, z3.Or(*[
-                z3.And(rank == j, z3.BoolVal(items[j][0] == vid),
-                       E(items[j][1]) == v) for j in range(len(items))])))
-        return z3.And(*conds)
+            if pres is False:
+                continue
+            conc, syms = pcs[i]
+            alts = []
+            for j in range(conc, min(len(items), conc + len(syms) + 1)):
+                if items[j][0] != vid:
+                    continue
+                alts.append(_A(cnt_is(pcs[i], j), _Eq(items[j][1], v)))
+            conds.append(_O(_N(pres), _O(*alts)))
+        return _A(*conds)
 
-    T = z3.BoolVal(True)
-    recs = [(vid, E(p), EB(s)) for vid, p, s in records]
+    recs = [(vid, p, _B(s)) for vid, p, s in records]
+    # the name tables are keyed by id: a verbatim repetition of a concrete
+    # record (the real list repeats '14w29a') contributes nothing
+    seen, uniq = {}, []
+    for r in recs:
+        if r[0] in seen and isinstance(r[1], int) and \
+                isinstance(r[2], bool) and seen[r[0]] == r:
+            continue
+        seen.setdefault(r[0], r)
+        uniq.append(r)
+    recs = uniq
+    rel = {vid: bool(RELEASE.match(vid)) for vid, _, _ in recs}
     conds = [
-        odict_ok([(T, vid, p) for vid, p, s in recs], known_mv),
+        odict_ok([(True, vid, p) for vid, p, s in recs], known_mv),
         odict_ok([(s, vid, p) for vid, p, s in recs], sup_mv),
-        odict_ok([(z3.And(s, z3.BoolVal(bool(RELEASE.match(vid)))), vid, p)
-                  for vid, p, s in recs], rel_mv),
-        dedupe_ok([(T, p) for vid, p, s in recs], known_pv),
+        odict_ok([(_A(s, rel[vid]), vid, p) for vid, p, s in recs], rel_mv),
+        dedupe_ok([(True, p) for vid, p, s in recs], known_pv),
         dedupe_ok([(s, p) for vid, p, s in recs], sup_pv),
-        dedupe_ok([(z3.And(s, z3.BoolVal(bool(RELEASE.match(vid)))), p)
-                   for vid, p, s in recs], rel_pv),
+        dedupe_ok([(_A(s, rel[vid]), p) for vid, p, s in recs], rel_pv),
     ]
-    # index map: exactly the positions in known_pv
     idx_items = list(indices.items())
-    conds.append(z3.BoolVal(len(idx_items) == len(known_pv)))
+    conds.append(len(idx_items) == len(known_pv))
     for j, p in enumerate(known_pv):
-        conds.append(z3.Or(*[z3.And(E(k) == E(p), E(v) == j)
-                             for k, v in idx_items]))
-    return z3.And(*conds)
+        if j < len(idx_items):
+            k, v = idx_items[j]     # insertion order == list order
+            conds.append(_A(_Eq(k, p), _Eq(v, j)))
+    return _Z(_A(*conds))
 
 
 def _snapshot(m):
